@@ -67,9 +67,12 @@ def make_oracle(F):
         if dk in ("eyre::WrapErr::wrap_err", "eyre::WrapErr::wrap_err_with", "eyre::WrapErr::context", "eyre::WrapErr::with_context"):
             return args[0]
         if dk == "core::convert::Into::into" and len(f.get("gargs") or []) == 2:
-            src, dst = f["gargs"]
+            src, dst = f.get("cgargs") or f["gargs"]
             if src == dst:
                 return args[0]
+            a0v = load(interp, env, args[0])
+            if is_comp_ty(dst) and ((isinstance(a0v, Agg) and (a0v.kind == "leaf" or (a0v.kind == "adt" and (a0v.name or "").startswith(CF)))) or (isinstance(a0v, Sym) and a0v.tag.startswith("param:"))):
+                return args[0]        # `impl Into<Box<dyn Component>>` instantiated with a component: the reflexive conversion
             if is_comp_ty(dst) and from_impl is not None and not is_comp_ty(src):
                 outs = interp.call_body(from_impl, [args[0]])
                 if len(outs) == 1 and outs[0][2] == "return":
@@ -171,40 +174,67 @@ def to_tree(F, heap, v, depth=0):
 
 def template_trees(F, fn):
     """[(Node, path)] one tree per Ok-returning path of the template constructor"""
-    args = []
+    import itertools
+    from collmodel import install as _install
+    OPT = "core::option::Option<alloc::boxed::Box<dyn mahf::"
     ins = fn.sig["inputs"]
     names = {}
     for d in fn.body.dbg:
         if d.get("arg"):
             names[d["arg"]] = d["name"]
+
+    def leaf(kind_ty, name):
+        kind = "condition" if "Condition<" in kind_ty else "component"
+        return Agg("leaf", None, None, [Leaf(kind, "param:" + name, None, [], None)])
+    # optional component parameters (`archive: Option<Box<dyn Component<P>>>`): every combination of present / absent is a template
+    optional = []
+    specs = []
     for i, ty in enumerate(ins):
         if is_comp_ty(ty):
-            kind = "condition" if "Condition<" in ty else "component"
-            args.append(Agg("leaf", None, None, [Leaf(kind, "param:" + names.get(i + 1, str(i)), None, [], None)]))
+            specs.append(("leaf", ty, names.get(i + 1, str(i))))
+        elif ty.startswith(OPT):
+            optional.append(("arg", i))
+            specs.append(("opt", ty, names.get(i + 1, str(i))))
         else:
             adt = F.adts.get(ty.split("<")[0])
             if adt is not None and ty.startswith("mahf::heuristics::") and adt["kind"] == "Struct":
-                fields = []
+                fds = []
                 for fd in adt["variants"][0]["fields"]:
                     if is_comp_ty(fd["ty"]):
-                        kind = "condition" if "Condition<" in fd["ty"] else "component"
-                        fields.append(Agg("leaf", None, None, [Leaf(kind, "param:" + fd["name"], None, [], None)]))
+                        fds.append(("leaf", fd["ty"], fd["name"]))
+                    elif fd["ty"].startswith(OPT):
+                        optional.append(("field", i, len(fds)))
+                        fds.append(("opt", fd["ty"], fd["name"]))
                     else:
-                        fields.append(TOP)
-                args.append(Agg("adt", adt["path"], adt["variants"][0]["name"], fields))
+                        fds.append(("top", None, None))
+                specs.append(("struct", adt, fds))
             else:
-                args.append(TOP)
-    it = Interp(fn.body, chain(make_oracle(F), coll_oracle, std_oracle), args, facts=F, inline=inline_pred, max_paths=400, max_depth=12)
+                specs.append(("top", None, None))
     out = []
-    for p in it.run():
-        if p.end != "return":
-            continue
-        r = p.ret
-        if isinstance(r, Agg) and r.name == "core::result::Result":
-            if r.variant != "Ok":
+    for present in itertools.product((True, False), repeat=len(optional)):
+        choice = dict(zip([tuple(o) for o in optional], present))
+
+        def value(spec, where):
+            k = spec[0]
+            if k == "leaf":
+                return leaf(spec[1], spec[2])
+            if k == "opt":
+                return some(leaf(spec[1], spec[2])) if choice[where] else NONE
+            if k == "struct":
+                adt, fds = spec[1], spec[2]
+                return Agg("adt", adt["path"], adt["variants"][0]["name"], [value(fd, ("field", where[1], j)) for j, fd in enumerate(fds)])
+            return TOP
+        args = [value(sp, ("arg", i)) for i, sp in enumerate(specs)]
+        it = _install(Interp(fn.body, chain(make_oracle(F), coll_oracle, std_oracle), args, facts=F, inline=inline_pred, max_paths=400, max_depth=12))
+        for p in it.run():
+            if p.end != "return":
                 continue
-            r = r.fields[0]
-        out.append((to_tree(F, p.mstate.get("heap", {}), r), p))
+            r = p.ret
+            if isinstance(r, Agg) and r.name == "core::result::Result":
+                if r.variant != "Ok":
+                    continue
+                r = r.fields[0]
+            out.append((to_tree(F, p.mstate.get("heap", {}), r), p))
     return out
 
 
@@ -214,7 +244,8 @@ def all_templates(F):
     def builds(f):
         out = (f.sig or {}).get("output", "")
         return ("configuration::Configuration<" in out) or ("dyn mahf::components::Component<" in out) or ("dyn mahf::conditions::Condition<" in out)
-    return [f for f in F.all_fns if f.key.startswith("mahf::heuristics::") and f.kind == "Fn" and builds(f)]
+    # private helpers (a factored-out sub-sequence of a template) are analysed through the public templates that call them
+    return [f for f in F.all_fns if f.key.startswith("mahf::heuristics::") and f.kind == "Fn" and builds(f) and f.vis in ("pub", "public")]
 
 
 if __name__ == "__main__":
